@@ -258,6 +258,23 @@ fn state_case<S: St>(c: &Case, obs: &mut Obs) -> PResult {
         apply(&mut b, &c.suffix).map_err(|e| engine::Fail { sig: format!("C20/{ty}/op_failed"), msg: e })?;
         ensure!(a == b && format!("{a:?}") == format!("{b:?}") && a.observe(&c.levels) == b.observe(&c.levels), format!("C20/{ty}/{fmt}/continuation_differs"), "after the same suffix the restored state is {b:?}, the original {a:?}");
     }
+    {
+        // constant or nearly constant sample: relative spread of the observations below 2^-30
+        let mut vals: Vec<f64> = vec![];
+        for st in &c.prefix {
+            match st {
+                Step::Append(x, _, _) => vals.push(*x),
+                Step::Extend(v) | Step::Merge(v, _) => vals.extend(v.iter().map(|o| o.0)),
+                _ => {}
+            }
+        }
+        if vals.len() >= 3 {
+            let (lo, hi) = vals.iter().fold((f64::INFINITY, f64::NEG_INFINITY), |(l, h), x| (l.min(*x), h.max(*x)));
+            if (hi - lo).abs() <= hi.abs().max(lo.abs()) * (2f64).powi(-30) {
+                obs.class("state-of-(nearly)-constant-sample");
+            }
+        }
+    }
     let nz = dbg.split("compensation: ").skip(1).any(|t| !(t.starts_with("0.0") || t.starts_with("-0.0")));
     obs.class(&format!("state/{ty}"));
     if s.count() as u64 >= (1u64 << 32) {
@@ -384,9 +401,34 @@ fn step() -> impl Strategy<Value = Step> {
 fn level() -> impl Strategy<Value = f64> {
     prop_oneof![prop::sample::select(vec![0.5, 0.9, 0.95, 0.99, 0.001, 0.9999]), (1u32..9999).prop_map(|i| i as f64 / 10000.0)]
 }
+/// replace every observation by one value (mode 1) or by values within 2^-36 of it (mode 2): states of constant or
+/// nearly constant samples (zero or rounding-level variance) are legitimate states and must round-trip as well
+fn flatten(steps: Vec<Step>, mode: u8, v: (f64, f64, bool)) -> Vec<Step> {
+    if mode == 0 {
+        return steps;
+    }
+    let mut k = 0u32;
+    let mut f = |o: (f64, f64, bool)| -> (f64, f64, bool) {
+        k += 1;
+        let j = if mode == 2 { 1.0 + (k.wrapping_mul(2654435761u32) >> 24) as f64 * (2f64).powi(-44) } else { 1.0 };
+        (v.0 * j, v.1 * j, o.2)
+    };
+    steps
+        .into_iter()
+        .map(|s| match s {
+            Step::Append(x, y, b) => {
+                let (x, y, b) = f((x, y, b));
+                Step::Append(x, y, b)
+            }
+            Step::Extend(v) => Step::Extend(v.into_iter().map(&mut f).collect()),
+            Step::Merge(v, a) => Step::Merge(v.into_iter().map(&mut f).collect(), a),
+            o => o,
+        })
+        .collect()
+}
 fn case_strategy() -> impl Strategy<Value = Case> {
-    (0usize..TYPES.len(), prop::collection::vec(step(), 1..12), prop::collection::vec(step(), 0..8), prop::collection::vec((0u8..3, level()), 1..4))
-        .prop_map(|(t, prefix, suffix, levels)| Case { ty: TYPES[t].to_string(), prefix, suffix, levels })
+    (0usize..TYPES.len(), prop::collection::vec(step(), 1..12), prop::collection::vec(step(), 0..8), prop::collection::vec((0u8..3, level()), 1..4), prop_oneof![6 => Just(0u8), 1 => Just(1u8), 1 => Just(2u8)], obs_value(), any::<bool>())
+        .prop_map(|(t, prefix, suffix, levels, mode, v, also_suffix)| Case { ty: TYPES[t].to_string(), prefix: flatten(prefix, mode, v), suffix: if also_suffix { flatten(suffix, mode, v) } else { suffix }, levels })
 }
 fn value_strategy() -> impl Strategy<Value = ValueCase> {
     let lv = prop_oneof![level().prop_map(|l| l.to_bits()), (1u64..(1u64 << 52)).prop_map(|m| (m as f64 / (1u64 << 52) as f64).to_bits()), Just(5e-324f64.to_bits()), Just(0.9999999999999999f64.to_bits())];
@@ -495,7 +537,7 @@ fn main() {
     for t in TYPES {
         run.require_class(&format!("state/{t}"));
     }
-    for c in ["Interval/degenerate", "state-with-count>=2^32", "state-with-nonzero-compensation", "Interval<f64>/upper", "Interval<i32,String>/lower", "Confidence/upper one-sided", "feature_build/std_serde", "feature_build/all"] {
+    for c in ["Interval/degenerate", "state-of-(nearly)-constant-sample", "state-with-count>=2^32", "state-with-nonzero-compensation", "Interval<f64>/upper", "Interval<i32,String>/lower", "Confidence/upper one-sided", "feature_build/std_serde", "feature_build/all"] {
         run.require_class(c);
     }
     run.assumptions.push("serde_json is built with float_roundtrip (otherwise its parser may be 1 ulp off and the harness, not the crate, would fail); CBOR via ciborium carries floats bit-exactly".into());
